@@ -1010,13 +1010,7 @@ func run(repo, dir string, seed uint64, tier, trimmer string) error {
 
 func (r *runner) trimmerProject(trimmer, dir string, idx int) error {
 	root := filepath.Join(dir, fmt.Sprintf("proj%d", idx))
-	src := filepath.Join(root, "src")
-	outDir := filepath.Join(root, "out")
 	defer os.RemoveAll(root)
-	if err := os.MkdirAll(filepath.Join(src, "sub"), 0o755); err != nil {
-		return err
-	}
-	os.MkdirAll(outDir, 0o755)
 	g := r.g
 	// leaf files: only structs/enums/typedefs/consts; main: uses them through services
 	files := map[string]string{}
@@ -1067,6 +1061,17 @@ func (r *runner) trimmerProject(trimmer, dir string, idx int) error {
 	mp.Defs = append(mp.Defs, svc)
 	progs["main.thrift"] = mp
 	files["main.thrift"] = mp.Render()
+	return r.trimmerCheck(trimmer, root, files, progs)
+}
+
+// trimmerCheck writes the project, runs the same pipeline in-process and the binary with -r, and compares.
+func (r *runner) trimmerCheck(trimmer, root string, files map[string]string, progs map[string]Prog) error {
+	src := filepath.Join(root, "src")
+	outDir := filepath.Join(root, "out")
+	if err := os.MkdirAll(filepath.Join(src, "sub"), 0o755); err != nil {
+		return err
+	}
+	os.MkdirAll(outDir, 0o755)
 	for n, s := range files {
 		if err := os.WriteFile(filepath.Join(src, n), []byte(s), 0o644); err != nil {
 			return err
@@ -1104,14 +1109,23 @@ func (r *runner) trimmerProject(trimmer, dir string, idx int) error {
 	seen := map[*parser.Thrift]bool{}
 	var walk func(a *parser.Thrift)
 	nFail := 0
+	kept := map[string]map[string]bool{} // file -> names of the definitions the trimmed AST still has
 	fail := func(rel, class, detail, written string) {
 		nFail++
 		r.out.Count("oracle-fail:trimmer/" + class)
-		// the same file in-process: if the library round trip fails on it in the same way, report that
-		// (shrunk, canonical key); failures specific to the binary are reported as such
-		if p, ok := progs[rel]; ok && (class == "reparse-error" || strings.HasPrefix(class, "diff:")) {
-			if v := checkSrc(files[rel], false); v.Class != "" && v.Class != "gen-reject" && strings.HasPrefix(v.Class, strings.SplitN(class, ":", 2)[0]) {
-				r.report(p, v, false)
+		// A written file equals the library's dump of the trimmed AST, so a re-reading failure is a failure of
+		// the library on that AST: evaluate the property in-process on the source reduced to the kept
+		// definitions and report that (shrunk, canonical key). Failures specific to the binary stay as they are.
+		if p, ok := progs[rel]; ok && kept[rel] != nil && (class == "reparse-error" || strings.HasPrefix(class, "diff:")) {
+			tp := p
+			tp.Defs = nil
+			for _, d := range p.Defs {
+				if kept[rel][d.Name] {
+					tp.Defs = append(tp.Defs, d)
+				}
+			}
+			if v := checkSrc(tp.Render(), false); v.Class != "" && v.Class != "gen-reject" {
+				r.report(tp, v, false)
 				return
 			}
 		}
@@ -1139,6 +1153,25 @@ func (r *runner) trimmerProject(trimmer, dir string, idx int) error {
 			return
 		}
 		r.out.Count("trimmer:files-reparsed")
+		names := map[string]bool{}
+		for _, x := range a.Typedefs {
+			names[x.Alias] = true
+		}
+		for _, x := range a.Constants {
+			names[x.Name] = true
+		}
+		for _, x := range a.Enums {
+			names[x.Name] = true
+		}
+		for _, l := range [][]*parser.StructLike{a.Structs, a.Unions, a.Exceptions} {
+			for _, x := range l {
+				names[x.Name] = true
+			}
+		}
+		for _, x := range a.Services {
+			names[x.Name] = true
+		}
+		kept[rel] = names
 		want, _ := safeDump(a)
 		if want != string(wb) {
 			fail(rel, "binary-differs-from-library", "written bytes differ from dump.DumpIDL of the trimmed AST", string(wb))
@@ -1168,26 +1201,49 @@ func (r *runner) trimmerProject(trimmer, dir string, idx int) error {
 
 // ---------------------------------------------------------------- replay
 
-func replay(repo, file string) error {
+func replay(repo, file, trimmer string) error {
 	b, err := os.ReadFile(file)
 	if err != nil {
 		return err
 	}
 	var doc struct {
-		Key   string `json:"key"`
-		Input struct {
-			Src      string `json:"src"`
-			Semantic bool   `json:"semantic"`
-		} `json:"input"`
+		Key   string                 `json:"key"`
+		Input map[string]interface{} `json:"input"`
 	}
 	if err := json.Unmarshal(b, &doc); err != nil {
 		return err
 	}
 	var fails []vl.OracleFail
-	v := checkSrc(doc.Input.Src, doc.Input.Semantic)
-	if v.Class != "" {
-		fails = append(fails, vl.OracleFail{Key: doc.Key, What: "dump/parse round trip: " + v.Class + " — " + v.Detail, Input: doc.Input,
-			Expected: "round trip equal", Observed: map[string]string{"class": v.Class, "detail": v.Detail, "dumped": v.Dumped}})
+	if src, ok := doc.Input["src"].(string); ok {
+		sem, _ := doc.Input["semantic"].(bool)
+		v := checkSrc(src, sem)
+		if v.Class != "" {
+			fails = append(fails, vl.OracleFail{Key: doc.Key, What: "dump/parse round trip: " + v.Class + " — " + v.Detail, Input: doc.Input,
+				Expected: "round trip equal", Observed: map[string]string{"class": v.Class, "detail": v.Detail, "dumped": v.Dumped}})
+		}
+	} else {
+		// a multi-file project for the trimmer binary
+		if trimmer == "" {
+			return fmt.Errorf("replay of a trimmer project needs -trimmer")
+		}
+		files := map[string]string{}
+		for k, v := range doc.Input {
+			if s, ok := v.(string); ok {
+				files[k] = s
+			}
+		}
+		dir, _ := os.MkdirTemp("", "c17replay")
+		defer os.RemoveAll(dir)
+		r := &runner{g: &gen{r: vl.NewRng(1)}, out: vl.NewOut(dir)}
+		if err := r.trimmerCheck(trimmer, filepath.Join(dir, "proj"), files, map[string]Prog{}); err != nil {
+			return err
+		}
+		r.out.Close()
+		for _, f := range r.out.Oracle {
+			f.Key = doc.Key
+			fails = append(fails, f)
+			break
+		}
 	}
 	js, _ := json.Marshal(fails)
 	if fails == nil {
@@ -1216,7 +1272,7 @@ func main() {
 	case "run":
 		err = run(*repo, *dir, *seed, *tier, *trimmer)
 	case "replay":
-		err = replay(*repo, *file)
+		err = replay(*repo, *file, *trimmer)
 	default:
 		err = fmt.Errorf("usage: c17 extract|run|replay")
 	}
